@@ -421,6 +421,12 @@ func (v *FHIRPathVisitor) VisitExternalConstant(ctx *grammar.ExternalConstantCon
 // root of the expression. If so, it will return a TypeExpression. Otherwise, it returns a FieldExpression.
 func (v *FHIRPathVisitor) VisitMemberInvocation(ctx *grammar.MemberInvocationContext) interface{} {
 	identifier := ctx.GetText()
+	// A delimited identifier denotes the name between the backticks.
+	if len(identifier) >= 2 && strings.HasPrefix(identifier, "`") && strings.HasSuffix(identifier, "`") {
+		if unescaped, err := system.ParseString("'" + identifier[1:len(identifier)-1] + "'"); err == nil {
+			identifier = string(unescaped)
+		}
+	}
 	var expression expr.Expression
 
 	if resource.IsType(identifier) && !v.visitedRoot {
